@@ -212,6 +212,37 @@ XTA_DEGENERATE = [
 ]
 
 
+def extras_docs():
+    """the C05 constructs beyond the abstract model (records, scalar sets, functions, priorities, progress, gantt, ...): alone, in
+    ordered pairs, and each alone cut off after every token (documents recovered from an error), in both formats"""
+    sys.path.insert(0, os.path.dirname(os.path.abspath(__file__)))
+    import c05
+    out = []
+    for a in c05.EXTRAS:
+        m = c05.with_extras([a])
+        out.append(("extra " + a[1].strip()[:40], MG.render_xml(m), MG.render_xta(m)))
+        toks = [mt.end() for mt in re.finditer(r"[A-Za-z_][A-Za-z_0-9]*|\d+(?:\.\d+)?(?:e-?\d+)?|<<|<=|>=|==|&&|\+=|--|->|[^\sA-Za-z_0-9]", a[1])]
+        for k in toks[:-1]:
+            m = c05.with_extras([(a[0], a[1][:k])])
+            out.append(("extra cut at %d: %s" % (k, a[1].strip()[:40]), MG.render_xml(m), MG.render_xta(m)))
+        for b in c05.EXTRAS:
+            if a is not b:
+                m = c05.with_extras([a, b])
+                out.append(("extras %s | %s" % (a[1].strip()[:25], b[1].strip()[:25]), MG.render_xml(m), MG.render_xta(m)))
+    return out
+
+
+def shard_extras(arg):
+    i, n = arg
+    part = engine.Part()
+    w = engine.worker(FLAV)
+    docs = [d for k, d in enumerate(extras_docs()) if k % n == i]
+    for kind, col in (("xml", 1), ("xta", 2)):
+        for d, resp in zip(docs, xmlgen.run_docs(w, [d[col] for d in docs], batch=50, kind=kind)):
+            judge(part, resp, "%s %s" % (kind, d[0]), {"op": kind, "buf": d[col]}, "extras-" + kind)
+    return part.result()
+
+
 def shard_misc(which):
     part = engine.Part()
     w = engine.worker(FLAV)
@@ -239,7 +270,9 @@ def main():
                         "union corpus: C04 choice-tree space (<= %d deviations) as XML and XTA; for <= %d deviations every text block "
                         "x %d hostile texts and every single structural XML fault (delete/duplicate element, drop/empty/alias/dangle "
                         "attribute) at every site; duplicate names over all ordered pairs of 16 declaration kinds (XML and XTA); %d "
-                        "degenerate XTA processes x both syntaxes. The invariant checker runs on the Document after every parse "
+                        "degenerate XTA processes x both syntaxes; 21 constructs beyond the abstract model (records, scalar sets, functions, "
+                        "priorities, before/after update, progress, gantt, system-section declarations) alone, in ordered pairs and cut off "
+                        "after every token, as XML and XTA. The invariant checker runs on the Document after every parse "
                         "(normal return, diagnostics, exception)." % (2 if t == "quick" else 3, 0 if t == "quick" else 1, len(HOSTILE),
                                                                      len(XTA_DEGENERATE)))
     # the invariant checker must itself fail on hand-corrupted documents (and only on those)
@@ -270,6 +303,8 @@ def main():
     for res in engine.pmap(shard_struct, [[p] for p in small]):
         rep.merge(res)
     for res in engine.pmap(shard_misc, ["dup", "xta"]):
+        rep.merge(res)
+    for res in engine.pmap(shard_extras, [(i, n) for i in range(n)]):
         rep.merge(res)
     rep.assumptions = ["the invariant checker harness/dump.cpp:invcheck transcribes the statement; it is itself exercised by "
                        "tools/selftest (hand-corrupted documents)",
